@@ -12,6 +12,21 @@ type Bounds struct {
 	Thorough bool
 	Ladder   []string // version alphabet, ascending
 	MaxVers  int      // max number of published versions per package
+	// Lite shrinks the secondary lists (used by C12, which multiplies every tuple by the option variants):
+	// CfgSets = {major}, {patch}, {minor, first package:none}; edge requirements = pins on the first 3 ladder
+	// versions + one loose requirement; manifest requirement styles npm a, ^a / Maven a, ${p}=a, "[a,)".
+	Lite bool
+}
+
+// LiteBoundsFor returns the reduced bounds C12 uses for a tier: <=2 (thorough <=3) published versions per package.
+func LiteBoundsFor(thorough bool) Bounds {
+	b := BoundsFor(thorough)
+	b.Lite = true
+	b.MaxVers = 2
+	if thorough {
+		b.MaxVers = 3
+	}
+	return b
 }
 
 // Quick and Thorough bounds.
@@ -73,14 +88,47 @@ type reqStyle struct {
 	Prop string
 }
 
-// manifestReqs: requirement styles anchored on every ladder version (the anchor
-// may be missing from the registry).
+// anchorsFor: the versions a manifest requirement is anchored on for a package
+// publishing s: every version of s plus the lowest ladder version missing from s
+// (a manifest that pins a version the registry does not have).
+func (b Bounds) anchorsFor(s []string) []string {
+	out := append([]string{}, s...)
+	for _, v := range b.Ladder {
+		found := false
+		for _, x := range s {
+			if x == v {
+				found = true
+			}
+		}
+		if !found {
+			out = append(out, v)
+			SortVersions(out)
+			break
+		}
+	}
+	return out
+}
+
+// manifestReqs: requirement styles anchored on the versions l (ascending).
 //
-//	npm:   a, ^a, ~a (a in ladder); ">=a <=b" (a,b consecutive ladder versions); thorough: ">=a", "*"
-//	Maven: a (soft), ${p}=a (property-interpolated soft), "[a,b]" (a,b consecutive), "[a,)"; thorough: "[a]", "(,a]"
-func (b Bounds) manifestReqs(eco string) []reqStyle {
+//	npm:   a, ^a, ~a (a in l); ">=a <=b" (a,b consecutive in l); thorough: ">=a", "*"
+//	Maven: a (soft), ${p}=a (property-interpolated soft), "[a,b]" (a,b consecutive in l), "[a,)"; thorough: "[a]"
+func (b Bounds) manifestReqs(eco string, l []string) []reqStyle {
 	var out []reqStyle
-	l := b.Ladder
+	if b.Lite {
+		// Lite: npm a, ^a; Maven a, ${p}=a, "[a,)"
+		for _, a := range l {
+			out = append(out, reqStyle{Req: a})
+		}
+		for _, a := range l {
+			if eco == NPM {
+				out = append(out, reqStyle{Req: "^" + a})
+			} else {
+				out = append(out, reqStyle{Req: a, Prop: "lib.version"}, reqStyle{Req: "[" + a + ",)"})
+			}
+		}
+		return out
+	}
 	if eco == NPM {
 		for _, a := range l {
 			out = append(out, reqStyle{Req: a})
@@ -118,9 +166,6 @@ func (b Bounds) manifestReqs(eco string) []reqStyle {
 		for _, a := range l {
 			out = append(out, reqStyle{Req: "[" + a + "]"})
 		}
-		for _, a := range l {
-			out = append(out, reqStyle{Req: "(," + a + "]"})
-		}
 	}
 	return out
 }
@@ -132,6 +177,13 @@ func (b Bounds) manifestReqs(eco string) []reqStyle {
 func (b Bounds) edgeReqs(eco string) []string {
 	var out []string
 	l := b.Ladder
+	if b.Lite {
+		out = append(out, l[:3]...)
+		if eco == NPM {
+			return append(out, "^"+l[0])
+		}
+		return append(out, "["+l[0]+",)")
+	}
 	out = append(out, l...)
 	if eco == NPM {
 		if b.Thorough {
@@ -156,83 +208,88 @@ func (b Bounds) edgeReqs(eco string) []string {
 	return out
 }
 
-// VulnSets on one package: 1 or 2 records.
+// VulnSets on one package: 1 or 2 records over the ladder ("nofix" = no fixed event).
 //
-//	singles: [0,f) for f in ladder + "no fix"; thorough: also [i,f) and [i,no fix) for every ladder i<f
-//	pairs quick:    {[0,f1),[0,f2)} f1<f2 (f2 may be "no fix"); {[0,f),[f,next(f))}, {[0,f),[f,no fix)} for f in ladder
-//	pairs thorough: every unordered pair of distinct singles
+//	singles quick:    [0,f) for f in ladder, [0,nofix)
+//	singles thorough: also [i,f) and [i,nofix) for all ladder versions i<f
+//	pairs quick:      {[0,f),[0,f')} and {[0,f),[f,f')} with f' = next ladder version after f
+//	                  (two open vulns with different fixes / a second vuln that starts where the first is fixed)
+//	pairs thorough:   {[0,f),[0,f')} and {[0,f),[f,f')} for every f<f' and f' = nofix
 func (b Bounds) VulnSets(pkg string) [][]Vuln {
 	l := b.Ladder
-	var singles []Vuln
+	var out [][]Vuln
+	single := func(in, fx string) Vuln { return Vuln{Pkg: pkg, Introduced: in, Fixed: fx} }
+	one := func(a Vuln) { a.ID = "V1"; out = append(out, []Vuln{a}) }
+	pair := func(a, c Vuln) { a.ID, c.ID = "V1", "V2"; out = append(out, []Vuln{a, c}) }
 	for _, f := range l {
-		singles = append(singles, Vuln{Pkg: pkg, Introduced: "0", Fixed: f})
+		one(single("0", f))
 	}
-	singles = append(singles, Vuln{Pkg: pkg, Introduced: "0"})
+	one(single("0", ""))
 	if b.Thorough {
 		for i, in := range l {
 			for _, f := range l[i+1:] {
-				singles = append(singles, Vuln{Pkg: pkg, Introduced: in, Fixed: f})
+				one(single(in, f))
 			}
-			singles = append(singles, Vuln{Pkg: pkg, Introduced: in})
-		}
-	}
-	var out [][]Vuln
-	for _, s := range singles {
-		s.ID = "V1"
-		out = append(out, []Vuln{s})
-	}
-	pair := func(a, c Vuln) {
-		a.ID, c.ID = "V1", "V2"
-		out = append(out, []Vuln{a, c})
-	}
-	if b.Thorough {
-		for i := range singles {
-			for j := i + 1; j < len(singles); j++ {
-				pair(singles[i], singles[j])
-			}
-		}
-		return out
-	}
-	n := len(l) + 1 // singles[0..n) are the [0,f) records, last = no fix
-	for i := 0; i < n; i++ {
-		for j := i + 1; j < n; j++ {
-			pair(singles[i], singles[j])
+			one(single(in, ""))
 		}
 	}
 	for i, f := range l {
-		if i+1 < len(l) {
-			pair(singles[i], Vuln{Pkg: pkg, Introduced: f, Fixed: l[i+1]})
+		if b.Thorough {
+			for _, f2 := range l[i+1:] {
+				pair(single("0", f), single("0", f2))
+			}
+		} else if i+1 < len(l) {
+			pair(single("0", f), single("0", l[i+1]))
 		}
-		pair(singles[i], Vuln{Pkg: pkg, Introduced: f})
+		if b.Thorough {
+			pair(single("0", f), single("0", ""))
+		}
+	}
+	for i, f := range l {
+		if b.Thorough {
+			for _, f2 := range l[i+1:] {
+				pair(single("0", f), single(f, f2))
+			}
+		} else if i+1 < len(l) {
+			pair(single("0", f), single(f, l[i+1]))
+		}
+		if b.Thorough {
+			pair(single("0", f), single(f, ""))
+		}
 	}
 	return out
 }
 
 var levelNames = []string{"major", "minor", "patch", "none"}
 
-// CfgSets: upgrade configurations over the given packages.
+// CfgSets: upgrade configurations over the given packages (default level + at most one per-package override).
 //
-//	quick:    the 4 defaults; per package p: (major,p:none) (none,p:major) (patch,p:minor) (minor,p:patch)
-//	thorough: default in 4 levels x (no override | p:level for every p and every level != default)
+//	quick:    the 4 defaults; per package p: (major,p:none) (none,p:major); if there is only one package also (patch,p:minor) (minor,p:patch)
+//	thorough: the 4 defaults; per package p: (major,p:l) for l != major, (none,p:l) for l != none, (patch,p:minor), (minor,p:patch)
 func (b Bounds) CfgSets(pkgs []string) [][]string {
 	var out [][]string
+	if b.Lite {
+		return [][]string{{"major"}, {"patch"}, {"minor", pkgs[0] + ":none"}}
+	}
 	for _, d := range levelNames {
 		out = append(out, []string{d})
 	}
-	if b.Thorough {
-		for _, d := range levelNames {
-			for _, p := range pkgs {
+	for _, p := range pkgs {
+		if b.Thorough {
+			for _, d := range []string{"major", "none"} {
 				for _, l := range levelNames {
 					if l != d {
 						out = append(out, []string{d, p + ":" + l})
 					}
 				}
 			}
+			out = append(out, []string{"patch", p + ":minor"}, []string{"minor", p + ":patch"})
+			continue
 		}
-		return out
-	}
-	for _, p := range pkgs {
-		out = append(out, []string{"major", p + ":none"}, []string{"none", p + ":major"}, []string{"patch", p + ":minor"}, []string{"minor", p + ":patch"})
+		out = append(out, []string{"major", p + ":none"}, []string{"none", p + ":major"})
+		if len(pkgs) == 1 {
+			out = append(out, []string{"patch", p + ":minor"}, []string{"minor", p + ":patch"})
+		}
 	}
 	return out
 }
@@ -258,28 +315,52 @@ func cat(a [][]Vuln, bs ...[][]Vuln) [][]Vuln {
 //	chainD   manifest {d1: R}; d1 publishes D; t1 publishes {1.0.0,2.0.0}; d1's i-th version pins t1@1.0.0 if bit i
 //	         of mask is set, else t1@2.0.0; vulns: {t1 [0,2.0.0)}, {t1 [0,nofix)}, {t1 [0,2.0.0), t1 [2.0.0,nofix)},
 //	         and for every f in D: {t1 [0,2.0.0), d1 [0,f)}
-//	         D in Subsets(ladder, MaxVers) x mask in 1..2^|D|-1 x R in manifestReqs x vulns x CfgSets(d1,t1)
+//	         D in Subsets(L4, min(3,MaxVers)) x mask in 1..2^|D|-1 x R in manifestReqs x vulns x CfgSets(d1,t1)   (L4 = first 4 ladder
+//	         versions in quick, the ladder in thorough)
 //	diamondT manifest {d1: 1.0.0, d2: 1.0.0}; d1@1.0.0 -> t1@a, d2@1.0.0 -> t1@b; t1 publishes T; single-record vulns on t1
-//	         T in Subsets(ladder, min(MaxVers,3)) x a,b in T (pins; plus (^a | [a,)), b) x singles(t1) x CfgSets(t1)
-//	diamondD manifest {d1: R1, d2: R2}; d1, d2 publish {1.0.0,1.1.0,2.0.0}[:n1], [:n2] (n in 1..3), masks as in chainD;
+//	         T in Subsets(L4, 3) x a in T u {^t | [t,) for t in T} x b in T x single-record VulnSets(t1) x CfgSets(t1)
+//	diamondD manifest {d1: R1, d2: R2}; d1, d2 publish {1.0.0,1.1.0,2.0.0}[:n1], [:n2] (n in 1..2 quick, 1..3 thorough), masks as in chainD;
 //	         R in {pin 1.0.0, caret/range 1.0.0}; vulns {t1 [0,2.0.0)}, {t1 [0,nofix)}; CfgSets(d1,d2)
 //	two      manifest {d1: 1.0.0, d2: 1.0.0}; d1@1.0.0 -> t1@1.0.0, d2@1.0.0 -> t2@1.0.0; t1, t2 publish T1, T2 in
 //	         Subsets(first 3 (thorough 4) ladder versions, 2) containing... any; vulns {t1 [0,f1), t2 [0,f2)} f in ladder[1:3]; CfgSets(t1,t2)
+//	sharedprop (Maven only) manifest {d1: ${p}, d2: ${p}} with p = a; d1 and d2 both publish S;
+//	         vulns {d1 [0,f)} and {d1 [0,f), d2 [f,nofix)} for f in ladder
+//	         S in Subsets(ladder, 2) x a in S x vulns x CfgSets(d1,d2)
 //	chain2   manifest {d1: R}; d1@v -> t1@1.0.0 -> ... t1@1.0.0 -> t2@1.0.0, t1@1.0.1 -> t2@1.0.1; d1 publishes {1.0.0,1.0.1};
 //	         d1@1.0.0 -> t1@1.0.0, d1@1.0.1 -> t1@1.0.1; vulns {t2 [0,1.0.1)}, {t1 [0,1.0.1)}, both; R in {1.0.0, ^/[ 1.0.0}; CfgSets(d1,t1,t2)
 func (b Bounds) GenFix(eco string, emit func(*Case)) {
+	for _, sh := range FixShapes {
+		b.GenFixShape(eco, sh, emit)
+	}
+}
+
+// FixShapes lists the GenFix shapes, simplest first.
+var FixShapes = []string{"solo", "chainT", "chainD", "diamondT", "diamondD", "two", "chain2", "sharedprop"}
+
+// GenFixShape enumerates one shape of GenFix.
+func (b Bounds) GenFixShape(eco, shape string, emit func(*Case)) {
 	l := b.Ladder
 	subs := Subsets(l, b.MaxVers)
-	mreqs := b.manifestReqs(eco)
-	mk := func(shape string, pkgs []Pkg, man []Req, vs []Vuln, cfg []string) {
-		emit(&Case{Eco: eco, Shape: shape, Pkgs: pkgs, Manifest: man, Vulns: append([]Vuln(nil), vs...), Cfg: cfg})
+	mreqsFor := func(pub []string) []reqStyle { return b.manifestReqs(eco, b.anchorsFor(pub)) }
+	mk := func(sh string, pkgs []Pkg, man []Req, vs []Vuln, cfg []string) {
+		if sh == shape {
+			emit(&Case{Eco: eco, Shape: sh, Pkgs: pkgs, Manifest: man, Vulns: append([]Vuln(nil), vs...), Cfg: cfg})
+		}
+	}
+	// l4: the sub-ladder used by the secondary shapes in the quick tier
+	l4 := l
+	if !b.Thorough {
+		l4 = l[:4]
 	}
 
 	// solo
 	vsD1 := b.VulnSets("d1")
 	cfgD1 := b.CfgSets([]string{"d1"})
 	for _, s := range subs {
-		for _, r := range mreqs {
+		if shape != "solo" {
+			break
+		}
+		for _, r := range mreqsFor(s) {
 			for _, vs := range vsD1 {
 				for _, cfg := range cfgD1 {
 					mk("solo", []Pkg{{Name: "d1", Vers: plainVers(s)}}, []Req{{Name: "d1", Req: r.Req, Prop: r.Prop}}, vs, cfg)
@@ -292,6 +373,9 @@ func (b Bounds) GenFix(eco string, emit func(*Case)) {
 	vsT1 := b.VulnSets("t1")
 	cfgDT := b.CfgSets([]string{"d1", "t1"})
 	for _, t := range subs {
+		if shape != "chainT" {
+			break
+		}
 		for _, e := range b.edgeReqs(eco) {
 			for _, vs := range vsT1 {
 				for _, cfg := range cfgDT {
@@ -322,7 +406,12 @@ func (b Bounds) GenFix(eco string, emit func(*Case)) {
 		{{ID: "V1", Pkg: "t1", Introduced: "0"}},
 		{{ID: "V1", Pkg: "t1", Introduced: "0", Fixed: "2.0.0"}, {ID: "V2", Pkg: "t1", Introduced: "2.0.0"}},
 	}
-	for _, d := range subs {
+	dsubs := Subsets(l4, min(3, b.MaxVers))
+	for _, d := range dsubs {
+		if shape != "chainD" {
+			break
+		}
+		mreqs := mreqsFor(d)
 		vsets := append([][]Vuln{}, baseT...)
 		for _, f := range d {
 			vsets = append(vsets, []Vuln{{ID: "V1", Pkg: "t1", Introduced: "0", Fixed: "2.0.0"}, {ID: "V2", Pkg: "d1", Introduced: "0", Fixed: f}})
@@ -351,7 +440,10 @@ func (b Bounds) GenFix(eco string, emit func(*Case)) {
 			singlesT = append(singlesT, vs)
 		}
 	}
-	for _, t := range Subsets(l, k) {
+	for _, t := range Subsets(l4, k) {
+		if shape != "diamondT" {
+			break
+		}
 		var as []string
 		as = append(as, t...)
 		for _, a := range t {
@@ -383,8 +475,15 @@ func (b Bounds) GenFix(eco string, emit func(*Case)) {
 		loose = "[1.0.0,2.0.0)"
 	}
 	cfgDD := b.CfgSets([]string{"d1", "d2"})
-	for n1 := 1; n1 <= 3; n1++ {
-		for n2 := 1; n2 <= 3; n2++ {
+	nd := 2
+	if b.Thorough {
+		nd = 3
+	}
+	for n1 := 1; n1 <= nd; n1++ {
+		if shape != "diamondD" {
+			break
+		}
+		for n2 := 1; n2 <= nd; n2++ {
 			for m1 := 1; m1 < 1<<n1; m1++ {
 				for m2 := 1; m2 < 1<<n2; m2++ {
 					for _, r1 := range []string{"1.0.0", loose} {
@@ -410,6 +509,9 @@ func (b Bounds) GenFix(eco string, emit func(*Case)) {
 	}
 	cfgTT := b.CfgSets([]string{"t1", "t2"})
 	for _, t1 := range Subsets(l[:nl], 2) {
+		if shape != "two" {
+			break
+		}
 		for _, t2 := range Subsets(l[:nl], 2) {
 			for _, f1 := range l[1:3] {
 				for _, f2 := range l[1:3] {
@@ -420,6 +522,25 @@ func (b Bounds) GenFix(eco string, emit func(*Case)) {
 							{Name: "t1", Vers: plainVers(t1)}, {Name: "t2", Vers: plainVers(t2)},
 						}, []Req{{Name: "d1", Req: "1.0.0"}, {Name: "d2", Req: "1.0.0"}},
 							[]Vuln{{ID: "V1", Pkg: "t1", Introduced: "0", Fixed: f1}, {ID: "V2", Pkg: "t2", Introduced: "0", Fixed: f2}}, cfg)
+					}
+				}
+			}
+		}
+	}
+
+	// sharedprop
+	if eco == Maven && shape == "sharedprop" {
+		for _, sv := range Subsets(l, 2) {
+			for _, a := range sv {
+				for _, f := range l {
+					for _, vs := range [][]Vuln{
+						{{ID: "V1", Pkg: "d1", Introduced: "0", Fixed: f}},
+						{{ID: "V1", Pkg: "d1", Introduced: "0", Fixed: f}, {ID: "V2", Pkg: "d2", Introduced: f}},
+					} {
+						for _, cfg := range cfgDD {
+							mk("sharedprop", []Pkg{{Name: "d1", Vers: plainVers(sv)}, {Name: "d2", Vers: plainVers(sv)}},
+								[]Req{{Name: "d1", Req: a, Prop: "lib.version"}, {Name: "d2", Req: a, Prop: "lib.version"}}, vs, cfg)
+						}
 					}
 				}
 			}
@@ -438,6 +559,9 @@ func (b Bounds) GenFix(eco string, emit func(*Case)) {
 		loose2 = "[1.0.0,)"
 	}
 	for _, r := range []string{"1.0.0", loose2} {
+		if shape != "chain2" {
+			break
+		}
 		for _, vs := range c2v {
 			for _, cfg := range cfg3 {
 				mk("chain2", []Pkg{
@@ -455,10 +579,11 @@ func (b Bounds) GenFix(eco string, emit func(*Case)) {
 //	solo   manifest {d1: R}; d1 publishes S
 //	       S in Subsets(ladder, MaxVers) x R in manifestReqs(Maven) + "[a]" x CfgSets(d1)
 //	pair   manifest {d1: R1, d2: R2}; d1 publishes S1, d2 publishes S2; R1, R2 soft or sharing one property
-//	       S1, S2 in Subsets(ladder, 2) x (a1,a2 in ladder[:4] soft/soft | one shared property a) x CfgSets(d1,d2)
+//	       S1, S2 in Subsets(ladder[:4] (thorough: ladder), 2) x (a1,a2 in A soft/soft | one shared property = a in A,
+//	       d2 regular or test-scoped) x CfgSets(d1,d2), A = first 3 (thorough 4) ladder versions
 func (b Bounds) GenUpdate(emit func(*Case)) {
 	l := b.Ladder
-	reqs := b.manifestReqs(Maven)
+	reqs := b.manifestReqs(Maven, l)
 	if !b.Thorough {
 		for _, a := range l {
 			reqs = append(reqs, reqStyle{Req: "[" + a + "]"})
@@ -473,16 +598,23 @@ func (b Bounds) GenUpdate(emit func(*Case)) {
 	}
 	type pr struct{ r1, r2 Req }
 	var prs []pr
-	for _, a1 := range l[:4] {
-		for _, a2 := range l[:4] {
+	na := 3
+	if b.Thorough {
+		na = 4
+	}
+	for _, a1 := range l[:na] {
+		for _, a2 := range l[:na] {
 			prs = append(prs, pr{Req{Name: "d1", Req: a1}, Req{Name: "d2", Req: a2}})
 		}
 	}
-	for _, a := range l[:4] {
+	for _, a := range l[:na] {
 		prs = append(prs, pr{Req{Name: "d1", Req: a, Prop: "lib.version"}, Req{Name: "d2", Req: a, Prop: "lib.version"}})
 		prs = append(prs, pr{Req{Name: "d1", Req: a, Prop: "lib.version"}, Req{Name: "d2", Req: a, Prop: "lib.version", Dev: true}})
 	}
 	s2 := Subsets(l, 2)
+	if !b.Thorough {
+		s2 = Subsets(l[:4], 2)
+	}
 	for _, s1 := range s2 {
 		for _, sb := range s2 {
 			for _, p := range prs {
@@ -500,7 +632,7 @@ func (b Bounds) Describe() string {
 	fmt.Fprintf(&sb, "ladder=%v; <=%d published versions per package (%d version sets); ", b.Ladder, b.MaxVers, len(Subsets(b.Ladder, b.MaxVers)))
 	rs := func(eco string) []string {
 		var o []string
-		for _, r := range b.manifestReqs(eco) {
+		for _, r := range b.manifestReqs(eco, []string{"a", "b"}) {
 			if r.Prop != "" {
 				o = append(o, "${p}="+r.Req)
 			} else {
@@ -509,9 +641,61 @@ func (b Bounds) Describe() string {
 		}
 		return o
 	}
-	fmt.Fprintf(&sb, "manifest requirements npm=%v Maven=%v; ", rs(NPM), rs(Maven))
+	fmt.Fprintf(&sb, "manifest requirement styles (shown for anchors a<b; anchors = the package's published versions + the lowest ladder version it does not publish; Update: every ladder version) npm=%v Maven=%v; ", rs(NPM), rs(Maven))
 	fmt.Fprintf(&sb, "edge requirements npm=%v Maven=%v; ", b.edgeReqs(NPM), b.edgeReqs(Maven))
 	fmt.Fprintf(&sb, "vuln sets per package=%d (1-2 records [introduced,fixed|nofix) over the ladder); ", len(b.VulnSets("x")))
 	fmt.Fprintf(&sb, "upgrade configs: %d for 1 package, %d for 2 (default level x one per-package override)", len(b.CfgSets([]string{"a"})), len(b.CfgSets([]string{"a", "b"})))
 	return sb.String()
+}
+
+// OptionVariants returns the case under every FixVulns filter option of C12
+// (one option at a time on top of the defaults):
+//
+//	default; ignore=[V1]; ignore=[V2]*; explicit=[V1]; explicit=[V2]*; dev-deps off with the first manifest
+//	requirement marked dev; dev-deps off with the second one marked dev**; max depth 1; max depth 2;
+//	min severity 5.0 with V1 low (1.8) and V2 high (9.8); the same with V1 high and V2 low*; no-introduce.
+//	(* only with two vulnerability records, ** only with two manifest requirements)
+func OptionVariants(c *Case) []Case {
+	var out []Case
+	add := func(name string, f func(v *Case)) {
+		v := *c
+		v.Manifest = append([]Req(nil), c.Manifest...)
+		v.Vulns = append([]Vuln(nil), c.Vulns...)
+		v.Opt = Opts{Name: name}
+		f(&v)
+		out = append(out, v)
+	}
+	add("default", func(v *Case) {})
+	for i := range c.Vulns {
+		id := c.Vulns[i].ID
+		add("ignore="+id, func(v *Case) { v.Opt.Ignore = []string{id} })
+	}
+	for i := range c.Vulns {
+		id := c.Vulns[i].ID
+		add("explicit="+id, func(v *Case) { v.Opt.Explicit = []string{id} })
+	}
+	for i := range c.Manifest {
+		i := i
+		add("nodev:"+c.Manifest[i].Name, func(v *Case) { v.Manifest[i].Dev = true; v.Opt.NoDevDeps = true })
+	}
+	add("depth=1", func(v *Case) { v.Opt.MaxDepth = 1 })
+	add("depth=2", func(v *Case) { v.Opt.MaxDepth = 2 })
+	if len(c.Vulns) > 0 {
+		add("minsev=5:V1low", func(v *Case) {
+			v.Opt.MinSeverity = 5
+			for i := range v.Vulns {
+				v.Vulns[i].Sev = []string{"low", "high"}[min(i, 1)]
+			}
+		})
+	}
+	if len(c.Vulns) > 1 {
+		add("minsev=5:V1high", func(v *Case) {
+			v.Opt.MinSeverity = 5
+			for i := range v.Vulns {
+				v.Vulns[i].Sev = []string{"high", "low"}[min(i, 1)]
+			}
+		})
+	}
+	add("nointroduce", func(v *Case) { v.Opt.NoIntroduce = true })
+	return out
 }
